@@ -61,7 +61,7 @@ theorem sql_never_leaks : (e : Expr) → callsOk e = true → durOk isD e = true
       simp only [callsOk, Bool.and_eq_true] at hc
       simp only [durOk, Bool.and_eq_true] at hd
       exact clean_bind _ _ (sql_never_leaks l hc.1 hd.1) (fun _ =>
-        clean_bind _ _ (sql_never_leaks r hc.2 hd.2) (fun _ => rfl))
+        clean_bind _ _ (sql_never_leaks r hc.2 hd.2) (fun _ => by split <;> rfl))
   | .boolop op l r, hc, hd => by
       rw [sqlVisit]
       simp only [callsOk, Bool.and_eq_true] at hc
